@@ -1541,11 +1541,15 @@ isqrt_rem(Type& q, Type& r, const Type from) {
   Type t(1);
   for (t <<= sizeof_to_bits(sizeof(Type)) - 2; t != 0; t >>= 2) {
     Type s = q + t;
+    // Note: (s + t) >> 1 == (q >> 1) + t, but s + t may overflow
+    // a signed Type when from >= 2^(bits-2).
     if (s <= r) {
       r -= s;
-      q = s + t;
+      q = (q >> 1) + t;
     }
-    q >>= 1;
+    else {
+      q >>= 1;
+    }
   }
 }
 
